@@ -22,9 +22,9 @@ def from_us(n: int) -> dt.datetime:
     return EPOCH + dt.timedelta(microseconds=n)
 
 
-def coq_key(k, with_txt=True) -> str:
+def coq_key(k, with_txt=True, with_pub=True) -> str:
     """kskm Key (or duck) -> Coq mkKey literal. k.public_key is base64 bytes."""
-    pub = base64.b64decode(k.public_key)
+    pub = base64.b64decode(k.public_key) if with_pub else b""
     ptxt = txt(k.public_key.decode()) if with_txt else "[]"
     alg = k.algorithm.value if hasattr(k.algorithm, "value") else int(k.algorithm)
     return (f"(mkKey {txt(k.key_identifier)} {z(k.key_tag)} {z(k.ttl)} {z(k.flags)} {z(k.protocol)} {z(alg)} "
@@ -58,8 +58,8 @@ def coq_sigpolicy(p) -> str:
             f"{z(us(p.min_signature_validity))} {z(us(p.max_validity_overlap))} {z(us(p.min_validity_overlap))} {algs})")
 
 
-def coq_bundle(b, with_txt=True, with_data=False) -> str:
-    keys = "[" + ";".join(coq_key(k, with_txt) for k in sorted(b.keys, key=lambda k: (k.key_identifier, k.public_key))) + "]"
+def coq_bundle(b, with_txt=True, with_data=False, with_pub=True) -> str:
+    keys = "[" + ";".join(coq_key(k, with_txt, with_pub) for k in sorted(b.keys, key=lambda k: (k.key_identifier, k.public_key))) + "]"
     sigs = "[" + ";".join(coq_sig(s, with_data) for s in sorted(b.signatures, key=lambda s: (s.key_identifier, s.key_tag))) + "]"
     signers = None
     if getattr(b, "signers", None):
@@ -86,3 +86,25 @@ def res_coq(r, okfmt) -> str:
 
 def fake_alg(n: int):
     return types.SimpleNamespace(value=n, name=f"ALG{n}")
+
+
+def coq_reqpolicy(p) -> str:
+    """kskm RequestPolicy -> Coq mkReqPolicy literal."""
+    from kskm.common.data import AlgorithmDNSSEC
+    b = coq_bool_
+    approved = [AlgorithmDNSSEC[x].value for x in p.approved_algorithms]
+    ndk = p.num_different_keys_in_all_bundles
+    return ("(mkReqPolicy [" + ";".join(txt(d) for d in p.acceptable_domains) + f"] {z(p.num_bundles)} {b(p.validate_signatures)} "
+            f"{b(p.keys_match_zsk_policy)} {b(p.rsa_exponent_match_zsk_policy)} {b(p.enable_unsupported_ecdsa)} "
+            f"{b(p.enable_unsupported_edwards_dsa)} {b(p.check_cycle_length)} {z(us(p.min_cycle_inception_length))} "
+            f"{z(us(p.max_cycle_inception_length))} {z(us(p.min_bundle_interval))} {z(us(p.max_bundle_interval))} "
+            f"{b(p.check_bundle_overlap)} {b(p.signature_algorithms_match_zsk_policy)} {zlist(approved)} "
+            f"{zlist(p.rsa_approved_exponents)} {zlist(p.rsa_approved_key_sizes)} {b(p.signature_validity_match_zsk_policy)} "
+            f"{b(p.check_keys_match_ksk_operator_policy)} {zlist(p.num_keys_per_bundle)} {z(ndk)} "
+            f"{b(p.signature_check_expire_horizon)} {z(p.signature_horizon_days)} {b(p.check_bundle_intervals)} "
+            f"{b(p.check_chain_keys)} {b(p.check_chain_keys_in_hsm)} {b(p.check_chain_overlap)} "
+            f"{b(p.check_keys_publish_safety)} {b(p.check_keys_retire_safety)})")
+
+
+def coq_bool_(x) -> str:
+    return "true" if x else "false"
